@@ -726,11 +726,19 @@ def main():
     args = parse_args()
     if args.replay:
         def rp(case, payload):
-            cls = all_classes()
-            fails, info = eval_case(case, cls)
-            want = json.dumps(payload.get("ident"), sort_keys=True)
-            hit = [d for i, d in fails if json.dumps(i, sort_keys=True) == want] or [d for _, d in fails]
-            return bool(fails), f"case {json.dumps(case)[:400]}: outcome {info['outcome']}: " + ("; ".join(hit) or "agrees with the oracle")
+            from mc.evidence import ident_matches, load_known
+            fails, info = eval_case(case, all_classes())
+            want = payload.get("ident")
+            if want is not None:  # the artefact names one failure identity: does that one reproduce?
+                hit = [d for i, d in fails if i == want]
+            else:
+                known = load_known(PID)
+                hit = [d for i, d in fails if not any(ident_matches(k["match"], i) for k in known)]
+            other = [d for i, d in fails if d not in hit]
+            text = f"case {json.dumps(case)[:400]}: outcome {info['outcome']}: " + ("; ".join(hit) or "agrees with the oracle")
+            if other:
+                text += "\n(also observed, not the identity of this artefact: " + "; ".join(other)[:400] + ")"
+            return bool(hit), text
         return run_replay(args, rp)
 
     run = Run(PID, "exploration", args)
